@@ -296,7 +296,22 @@ def bodilessJudge (f : List String) (out : String) : String :=
     | _, _, _ => "bad:unparsable:" ++ out
   | _, _ => "bad:unparsable:" ++ out
 
+/-- c18.pool: every one of the k overlapping responses decodes to its own body -/
+def poolModel : List String → String
+  | [_, _, k] => match k.toNat? with
+    | some k => ",".intercalate (List.replicate k "ok")
+    | none => "bad-case"
+  | _ => "bad-case"
+
+def poolJudge (_ : List String) (out : String) : String :=
+  match (out.splitOn ",").find? (· != "ok") with
+  | none => "ok"
+  | some bad =>
+    if bad.startsWith "bad:decoded-differs" then "bad:decoded-differs:a response served while others were in flight does not decode to its own body"
+    else "bad:undecodable:a response served while others were in flight is not a complete gzip stream (" ++ bad ++ ")"
+
 def streams : List Driver.Stream := [
+  { name := "c18.pool", model := poolModel, judge := poolJudge },
   { name := "c18.bodiless", model := bodilessModel, judge := bodilessJudge },
   { name := "c18.live", model := liveModel, judge := liveJudge },
   { name := "c18.range", model := rangeModel, judge := rangeJudge },
